@@ -12,14 +12,14 @@ PLATFORMS = ["xen", "ppc64le", "uefi", "Xen-PV"]
 IMAGE_NAMES = ["boot.iso", "kernel", "initrd", "Kernel", "efiboot.img", "upgrade", "boot iso", "BOOT.ISO", "x.y-z_0", "initrd.IMG"]
 PATHS = ["Packages", ".", "repo", "src repo", "images/boot.iso", "a/b/c", "ünï/côde", "x" * 40, "Server/os",
          "a=b", "c:d", "semi;colon", "has # hash", "[bracket]", "with = and : both", "back\\slash", "UPPER/lower",
-         "Storage Server ;EUS", "x #y", "a ; b # c", "tail ;"]
+         "Storage Server ;EUS", "x #y", "a ; b # c", "tail ;", "AppStream/Packages/", "BaseOS/", "repo//", "./Packages", "a/../b"]
 
 
 def gen_content(rng, max_top=3, max_children=3, src=None, float_ts=False):
     rel = {"name": pick(rng, TI_NAMES), "short": pick(rng, TI_SHORTS), "version": pick(rng, TI_VERSIONS), "is_layered": rng.random() < 0.3}
     bp = {"name": pick(rng, TI_NAMES), "short": pick(rng, TI_SHORTS), "version": pick(rng, ["7", "20", "Rawhide", "8.1"])}
     arch = "src" if (src if src is not None else rng.random() < 0.2) else pick(rng, pools.ARCHES)
-    ts = rng.choice([1, 123456, 1410855216, 2 ** 33 + 1])
+    ts = rng.choice([1, 123456, 1410855216, 2 ** 33 + 1, -1, -1, -86400])
     if float_ts:
         ts = ts + rng.choice([0.0, 0.25, 0.5, 0.999])
     plats = subset(rng, PLATFORMS, 0, 3)
@@ -70,7 +70,7 @@ def gen_content(rng, max_top=3, max_children=3, src=None, float_ts=False):
         K["media"] = {"discnum": rng.randint(1, tot), "totaldiscs": tot}
     for _ in range(rng.randint(0, 4)):
         t = pick(rng, ["md5", "sha1", "sha256", "sha512"])
-        K["checksums"]["%s/%s" % (pick(rng, ["images", "repodata", "LiveOS", "Images/Sub"]), pick(rng, IMAGE_NAMES + ["repomd.xml"]))] = [t, hexstr(rng, {"md5": 32, "sha1": 40, "sha256": 64, "sha512": 128}[t])]
+        K["checksums"]["%s/%s" % (pick(rng, ["images", "repodata", "LiveOS", "Images/Sub", "x86_64/os/images", "tree/os"]), pick(rng, IMAGE_NAMES + ["repomd.xml"]))] = [t, hexstr(rng, {"md5": 32, "sha1": 40, "sha256": 64, "sha512": 128}[t])]
     # entries planted directly in the public table (not through Checksums.add, which normalises): relative but
     # not in normal form - legal option names, must come back verbatim
     K["raw_checksums"] = {}
